@@ -184,3 +184,16 @@ func ParamsLongReview() *config.Configuration {
 	p.CRConfiguration.ProposalCRVotingPeriod = 9
 	return p
 }
+
+// ParamsDPoSV2 is Params in the DPoS v2 era (DPoSV2StartHeight = 1): the vote count ends at 8
+// (next members elected), the elected members claim their DPoS nodes during a claim period of 3
+// blocks and take office at 11 (Committee.resetNextMembers). Vote outputs are still accepted:
+// the node refuses them only once the DPoS state has reached DPoSV2ActiveHeight.
+func ParamsDPoSV2() *config.Configuration {
+	p := Params()
+	p.DPoSV2StartHeight = 1
+	p.CRConfiguration.CRClaimPeriod = 3
+	p.CRConfiguration.CRCommitteeStartHeight = 11
+	p.CRConfiguration.CRClaimDPOSNodeStartHeight = 0
+	return p
+}
